@@ -392,6 +392,10 @@ def monStream (id : String) (decls : List FnDecl) (userD : Dag) (a : DAcc) (m : 
           let a := if woken then a else
             a.prop id "C05" wh ((List.range c.n).all (fun v =>
               decide (v ∈ m.yielded) || (parents c.D v).any (fun p => decide (p ∉ m.droppedRefs))))
+          -- C03 (stream form): a clean stream that is parked for good never yields the rest
+          let a := if woken || m.yieldedAtIntr.isSome then a else
+            a.prop id "C03" (wh ++ " clean stream can never yield the rest") ((List.range c.n).all (fun v =>
+              decide (v ∈ m.yielded) || (parents c.D v).any (fun p => decide (p ∉ m.droppedRefs))))
           -- C06 (stream form): same statement, counted under C06 as well
           let a := if woken || interruptible then a else
             a.prop id "C06" wh ((List.range c.n).all (fun v =>
